@@ -343,4 +343,19 @@ def c10_family(tag, quick):
                                    {"a": "closeDown", "g": "C3", "obj": "D1", "ctxMs": 2000}, {"a": "closeDown", "g": "C4", "obj": "D1", "ctxMs": 2000},
                                    {"a": "join", "obj": "C1"}, {"a": "join", "obj": "C2"}, {"a": "join", "obj": "C3"}, {"a": "join", "obj": "C4"},
                                    {"a": "closeConn", "g": "C", "ctxMs": 2000, "wait": True}] + tail})
+    # two overlapping Close calls on one stream: the first one's close request is still unanswered when the second call is made
+    scs.append({"id": tag + "/overlappingStreamClose", "kind": "iscp", "conn": {},
+                "steps": [{"a": "holdHandler", "mode": "DownClosed", "n": 1, "gate": "hd"}, {"a": "holdHandler", "mode": "UpClosed", "n": 1, "gate": "hd"}]
+                         + base() + [{"a": "rule", "rule": {"on": "DownstreamCloseRequest", "nth": 1, "do": "hold", "arg": 4}},
+                                   {"a": "rule", "rule": {"on": "UpstreamCloseRequest", "nth": 1, "do": "hold", "arg": 5}},
+                                   {"a": "closeDown", "g": "C3", "obj": "D1", "ctxMs": 2500},
+                                   {"a": "await", "ev": "Fault", "match": {"do": "hold", "on": "DownstreamCloseRequest"}, "ms": 2000, "must": True},
+                                   {"a": "closeDown", "g": "C4", "obj": "D1", "ctxMs": 2500},
+                                   {"a": "closeUp", "g": "C1", "obj": "U1", "ctxMs": 2500},
+                                   {"a": "await", "ev": "Fault", "match": {"do": "hold", "on": "UpstreamCloseRequest"}, "ms": 2000, "must": True},
+                                   {"a": "closeUp", "g": "C2", "obj": "U1", "ctxMs": 2500}, {"a": "sleep", "ms": 80},
+                                   {"a": "release", "gate": "hold4"}, {"a": "release", "gate": "hold5"},
+                                   {"a": "join", "obj": "C1"}, {"a": "join", "obj": "C2"}, {"a": "join", "obj": "C3"}, {"a": "join", "obj": "C4"}, {"a": "sleep", "ms": 100},
+                                   {"a": "release", "gate": "hd"}, {"a": "sleep", "ms": 200},     # (the application's closed handlers took their time)
+                                   {"a": "closeConn", "g": "C", "ctxMs": 2000, "wait": True}] + tail})
     return scs
